@@ -12,8 +12,10 @@
 
 #include <chrono>
 #include <cmath>
+#include <limits>
 #include <memory>
 #include <string>
+#include <utility>
 
 namespace bfl
 {
@@ -286,6 +288,49 @@ Eigen::Matrix<DerivedScalar, 4, 1> mean_quaternion(const Eigen::MatrixBase<Deriv
 
 
 /**
+ * Evaluate the sign and the logarithm of the absolute value of the determinant of a square matrix
+ * from its LU factors, i.e. without forming the determinant itself. The determinant of a perfectly
+ * conditioned matrix leaves the range of a double already for moderate sizes
+ * (e.g. det(0.01 * I) = 1e-340 for a 170 x 170 matrix), while its logarithm does not.
+ *
+ * @param matrix A square matrix.
+ *
+ * @return A pair (s, l) such that det(matrix) = s * exp(l), with s in {-1, +1}.
+ */
+inline std::pair<double, double> sign_log_abs_determinant(const Eigen::Ref<const Eigen::MatrixXd>& matrix)
+{
+    if (matrix.rows() == 0)
+        return std::make_pair(1.0, 0.0);
+
+    Eigen::PartialPivLU<Eigen::MatrixXd> lu(matrix);
+
+    double sign = static_cast<double>(lu.permutationP().determinant());
+    double log_abs = 0.0;
+    for (Eigen::Index i = 0; i < matrix.rows(); i++)
+    {
+        const double pivot = lu.matrixLU()(i, i);
+        if (pivot < 0.0)
+            sign = -sign;
+        log_abs += std::log(std::abs(pivot));
+    }
+
+    return std::make_pair(sign, log_abs);
+}
+
+
+/**
+ * Evaluate log(det(matrix)) without forming det(matrix), see sign_log_abs_determinant().
+ * As std::log(matrix.determinant()) does, it evaluates to NaN if the determinant is negative.
+ */
+inline double log_determinant(const Eigen::Ref<const Eigen::MatrixXd>& matrix)
+{
+    const std::pair<double, double> sign_log_abs = sign_log_abs_determinant(matrix);
+
+    return (sign_log_abs.first < 0.0) ? std::numeric_limits<double>::quiet_NaN() : sign_log_abs.second;
+}
+
+
+/**
  * Evaluate the logarithm of a multivariate Gaussian probability density function.
  *
  * @param input Input representing the argument of the function as a vector or matrix.
@@ -301,7 +346,7 @@ Eigen::VectorXd multivariate_gaussian_log_density(const Eigen::MatrixBase<Derive
 
     Eigen::VectorXd values(diff.cols());
     for (std::size_t i = 0; i < diff.cols(); i++)
-        values(i) = - 0.5 * (static_cast<double>(diff.rows()) * std::log(2.0 * M_PI) + std::log(covariance.determinant()) + (diff.col(i).transpose() * covariance.inverse() * diff.col(i)));
+        values(i) = - 0.5 * (static_cast<double>(diff.rows()) * std::log(2.0 * M_PI) + log_determinant(covariance) + (diff.col(i).transpose() * covariance.inverse() * diff.col(i)));
 
     return values;
 }
@@ -388,20 +433,36 @@ Eigen::VectorXd multivariate_gaussian_log_density_UVR(const Eigen::MatrixBase<De
      * According to Generalized matrix determinant lemma det(S) = det(UV + R) = det(R) det(I + V inv(R) U)
      * See https://en.wikipedia.org/wiki/Matrix_determinant_lemma#Generalization
      */
-    double det_S;
-    double det_R = 1.0;
+    /* The logarithm of det(S) is accumulated from the logarithms of the absolute values of the factors, whose signs
+       are tracked separately: det(S) > 0 does not imply that each factor is positive, and the product of the
+       factors may leave the range of a double while log(det(S)) does not. */
+    double sign_det_S = 1.0;
+    double log_det_S = 0.0;
     if (R.cols() == block_size)
-        det_R = std::pow(R.determinant(), num_blocks);
+    {
+        const std::pair<double, double> block = sign_log_abs_determinant(R);
+        if ((block.first < 0.0) && (num_blocks % 2 == 1))
+            sign_det_S = -sign_det_S;
+        log_det_S += static_cast<double>(num_blocks) * block.second;
+    }
     else
         for (std::size_t i = 0; i < num_blocks; i++)
-            det_R *= R.block(0, block_size * i, block_size, block_size).determinant();
+        {
+            const std::pair<double, double> block = sign_log_abs_determinant(R.block(0, block_size * i, block_size, block_size));
+            sign_det_S *= block.first;
+            log_det_S += block.second;
+        }
 
-    det_S = det_R * I_V_inv_R_U.determinant();
+    const std::pair<double, double> factor = sign_log_abs_determinant(I_V_inv_R_U);
+    sign_det_S *= factor.first;
+    log_det_S += factor.second;
+    if (sign_det_S < 0.0)
+        log_det_S = std::numeric_limits<double>::quiet_NaN();
 
     /* Evaluate the full logarithm density */
     Eigen::VectorXd values(input.cols());
     for (std::size_t i = 0; i < input.cols(); i++)
-        values(i) = - 0.5 * (static_cast<double>(diff.rows()) * std::log(2.0 * M_PI) + std::log(det_S) + weighted_diffs(i));
+        values(i) = - 0.5 * (static_cast<double>(diff.rows()) * std::log(2.0 * M_PI) + log_det_S + weighted_diffs(i));
 
     return values;
 }
